@@ -154,6 +154,11 @@ def _assembly_role(fn, e):
         return "header1" if {126, 127} & consts else "header0"
     if isinstance(e, ast.Name):
         vals = [v for v in local_assignments(fn, e.id) if v is not None]
+        # `x = A or b""` / `x = A if c else b""`: the alternatives are the values
+        flat = []
+        for v in vals:
+            flat += list(v.values) if isinstance(v, ast.BoolOp) else ([v.body, v.orelse] if isinstance(v, ast.IfExp) else [v])
+        vals = flat
         packs = [norm.text(v.args[0]).strip("'\"") for v in vals if isinstance(v, ast.Call) and norm.text(v.func) == "struct.pack" and v.args]
         if packs and set(packs) <= {"!H", "!Q", ">H", ">Q"}:
             return "ext-length"
